@@ -234,9 +234,17 @@ def _(E, m, a, c0): return Seq([])
 @exact('Vec::with_capacity')
 def _(E, m, a, c0): return Seq([])
 @pattern(r'Vec::len|core::slice::<impl \[.*\]>::len|VecDeque::len|String::len|std::string::String::len|core::str::<impl str>::len')
-def _(E, m, a, c0): return z3.IntVal(len(_seq(E, a[0]).fields))
+def _(E, m, a, c0): return _len(E, a[0])
 @pattern(r'Vec::is_empty|core::slice::<impl \[.*\]>::is_empty|VecDeque::is_empty|std::string::String::is_empty|core::str::<impl str>::is_empty')
-def _(E, m, a, c0): return z3.BoolVal(len(_seq(E, a[0]).fields) == 0)
+def _(E, m, a, c0): return _len(E, a[0]) == 0
+def _len(E, x):
+    v = E.deref(x) if isinstance(x, Ref) else x
+    if isinstance(v, Opaque) and not v.tag.startswith('str:"'):
+        # a formatted string / a long fill whose content is not tracked: its length is an arbitrary number of the right range
+        E._olen = getattr(E, '_olen', 0) + 1
+        c = z3.Int(f'opaquelen{E._olen}')
+        E.assume(*( [c > 3, c <= 2**63 - 1] if v.tag == 'vec:long' else [c >= 0, c <= 16] )); return c
+    return z3.IntVal(len(_seq(E, x).fields))
 @exact('Vec::push', 'VecDeque::push_back', 'std::string::String::push')
 def _(E, m, a, c0): v = _seq(E, a[0]); E.wr(a[0], Seq(v.fields + [a[1]])); return UNIT
 @exact('Vec::pop', 'VecDeque::pop_back')
@@ -361,11 +369,23 @@ def _iter_of(E, x, mode):
     if isinstance(x, Adt) and x.ty in ('Range',):
         lo, hi = x.fields
         return Adt('RangeIter', None, [lo, hi])
+    if isinstance(x, (Adt, BoxV)) and mode == 'own': return x       # a crate type that is itself an Iterator: into_iter is the identity (blanket impl)
     raise Missing(f'iterator over {x!r}')
+def _drain(E, it):
+    """remaining items of a crate iterator value, through its own `next` (bounded)"""
+    c = it.cell if isinstance(it, BoxV) else Cell(it)
+    out = []
+    for _ in range(64):
+        o = E.dyn_dispatch('<dyn Iterator as Iterator>::next', [Ref(c, [])])
+        if o is NotImplemented: raise Missing(f'iterator over {it!r}'[:160])
+        if o.variant == 'None': return out
+        out.append(o.fields[0])
+    raise Missing('draining a crate iterator: more than 64 elements (infinite stream?)')
 def _collect(E, x, clone=False):
     if isinstance(x, Ref) and isinstance(E.deref(x), Seq):
         v = E.deref(x); return [E.clone_value(f) for f in v.fields] if clone else [Ref(*E.canon(x.cell, list(x.path) + [i])) for i in range(len(v.fields))]
     it = _iter_of(E, x, 'own')
+    if not (isinstance(it, Adt) and it.ty in ('Iter', 'RangeIter')): return _drain(E, it)
     out = []
     while True:
         r = _next(E, it)
@@ -418,6 +438,9 @@ def _(E, m, a, c0):
 def _(E, m, a, c0):
     r = E.deref(a[0]); lo, hi = r.fields
     if E.branch(lo < hi):
+        if not z3.is_int_value(z3.simplify(hi)):
+            key = ('rangeiter', str(hi)); E.log.append(key)
+            if sum(1 for l in E.log if l == key) > 4: raise Missing('loop over a range with a symbolic bound: more than 4 iterations')
         E.wr(a[0], Adt(r.ty, None, [z3.simplify(lo + 1), hi])); return opt(lo)
     return opt()
 @pattern(r'<(std::ops::)?Range<(usize|i64|i32|u32|isize|u64)> as IntoIterator>::into_iter')
